@@ -188,4 +188,29 @@ termination_by structural fs _ => fs
 
 end
 
+/-! ### JSON documents in the strict sense -/
+
+mutual
+/-- a JSON document in the strict sense: null / bool / number / string / array / object whose keys are strings -/
+def docStable : PyVal → Bool
+  | .none => true
+  | .bool _ => true
+  | .int _ => true
+  | .float _ => true
+  | .str _ => true
+  | .list xs => docStableList xs
+  | .dict kvs => docStablePairs kvs
+  | _ => false
+termination_by structural v => v
+def docStableList : List PyVal → Bool
+  | [] => true
+  | x :: xs => docStable x && docStableList xs
+termination_by structural xs => xs
+def docStablePairs : List (PyVal × PyVal) → Bool
+  | [] => true
+  | (k, v) :: rest => (match k with | .str _ => true | _ => false) && docStable v && docStablePairs rest
+termination_by structural xs => xs
+end
+
+
 end Typedpy
